@@ -217,7 +217,7 @@ func runC14(c *core.Ctx) {
 		})
 	}
 	// (3) round trip through the public Marshal/Unmarshal incl. the decoded float
-	c.Section("composite", c.N(300000, 6000000), func(cs *core.Case) {
+	c.Section("composite", c.N(300000, 60000000), func(cs *core.Case) {
 		r := cs.R
 		bits := r.U32() & 0x7FFFFFFF
 		if r.Chance(1, 2) {
